@@ -425,11 +425,17 @@ func verifC09Rank(rx, ry, rz int) {}
 //@ pure func bucketsApart(p *Projection) bool = forall h1 uint64, h2 uint64 :: has(p.keys, h1) && has(p.keys, h2) && h1 != h2 && p.keys[h1] != nil ==>
 //@     ref(p.keys[h1]) != ref(p.keys[h2])
 
+// flatLen/flatAt: the flattened field sequence of a projection as the cache
+// (sync.Once plus a recursive closure: outside the subset) computes it.
+//@ ghost func flatLen(p *Projection) int
+//@ ghost func flatAt(p *Projection, i int) *Field
+
 //@ func (p *Projection) FlattenedFields() (r []*Field)
 //@   trusted
 //@   requires p != nil
 //@   modifies p
 //@   ensures flatOK(r)
+//@   ensures len(r) == flatLen(p) && forall i int :: 0 <= i < len(r) ==> r[i] == flatAt(p, i) && r[i].proj == p && !r[i].IsTuple
 //@   ensures p.row === old(p.row) && p.keys == old(p.keys)
 
 //@ func (p *Projection) internRow() (r Key)
@@ -450,4 +456,41 @@ func verifC09Rank(rx, ry, rz int) {}
 //@     decreases len(keys) - idx()
 //@   loop 4:
 //@     invariant 0 <= idx() <= rlen()
+//@     decreases rlen() - idx()
+
+// ---------------------------------------------------------------------------
+// Residue warnings (C14): the fields in which a cell's keys differ
+
+//@ pure func sameProj(keys []Key) bool = forall i int :: 0 <= i < len(keys) ==> keys[i].k != nil && keys[i].k.proj == keys[0].k.proj
+
+//@ func commonProjection(keys []Key) (p *Projection)
+//@   requires sameProj(keys)
+//@   ensures len(keys) == 0 ==> p == nil
+//@   ensures len(keys) > 0 ==> p == keys[0].k.proj
+//@   loop 1:
+//@     invariant 0 <= idx() <= rlen()
+//@     decreases rlen() - idx()
+
+// varies(keys, f): some key's value for field f differs from the first key's.
+//@ pure func varies(keys []Key, f *Field) bool = exists k int :: 0 <= k < len(keys) && fval(keys[k].k.vals, f) != fval(keys[0].k.vals, f)
+
+// NonSingularFields names exactly the flattened fields in which the keys differ.
+//@ func NonSingularFields(keys []Key) (out []*Field)
+//@   props C14
+//@   requires sameProj(keys) && (len(keys) > 0 ==> keys[0].k.proj != nil)
+//@   modifies keys[0].k.proj
+//@   ensures len(keys) <= 1 ==> out == nil
+//@   ensures len(keys) > 1 ==> forall j int :: 0 <= j < len(out) ==> varies(keys, out[j])
+//@   ensures len(keys) > 1 ==> forall i int :: 0 <= i < flatLen(old(keys[0].k.proj)) && varies(keys, flatAt(old(keys[0].k.proj), i)) ==>
+//@             exists j int :: 0 <= j < len(out) && out[j] == flatAt(old(keys[0].k.proj), i)
+//@   loop 1:
+//@     invariant 0 <= idx() <= len(fields) && len(fields) == flatLen(old(keys[0].k.proj)) && unchanged(keys[0].k.proj)
+//@     invariant out == nil || (fresh(out) && ref(out) != ref(fields))
+//@     invariant forall i int :: 0 <= i < len(fields) ==> fields[i] == flatAt(old(keys[0].k.proj), i) && fields[i] != nil && fields[i].idx >= 0 && fields[i].proj == old(keys[0].k.proj) && !fields[i].IsTuple
+//@     invariant forall j int :: 0 <= j < len(out) ==> varies(keys, out[j])
+//@     invariant forall i int :: 0 <= i < idx() && varies(keys, fields[i]) ==> exists j int :: 0 <= j < len(out) && out[j] == fields[i]
+//@     decreases len(fields) - idx()
+//@   loop 2:
+//@     invariant 0 <= idx() <= rlen() && rlen() == len(keys) - 1 && unchanged(keys[0].k.proj)
+//@     invariant forall m int :: 1 <= m <= idx() ==> fval(keys[m].k.vals, f) == base
 //@     decreases rlen() - idx()
